@@ -1,4 +1,99 @@
-(* placeholder until proofs land *)
-From PV Require Import Model.Annotation.
-Theorem C02_placeholder : True. Proof. exact I. Qed.
-Print Assumptions C02_placeholder.
+(* C02  Annotation is a (segment, track) -> label map whose derived views never go stale.
+   The model mirrors annotation.py: the ground-truth track map (a_tracks), the cached per-label
+   timelines with their dirty flags, the cached timeline of segments with its flag.
+   [AInv eps a]: the dirty-flag invariant (every label in use is flagged or cached; a cached,
+   unflagged timeline equals the one computed from scratch from the track map, carries the
+   current uri, and its label is in use; an unflagged segment timeline is the one computed from
+   scratch; no stored segment is empty; per-segment dicts are non-empty).
+   [occ m lab s]: some track of segment s carries label lab in the track map m.
+   [lab_tl eps m lab]: the timeline of the segments carrying lab, computed from scratch.
+   Statements only. *)
+From PV Require Import Model.Annotation Proofs.DictP Proofs.AnnotationInvP Proofs.AnnotationHistP Check.C02.
+
+Section C02.
+Variable eps : Z.
+
+(* the invariant holds in every state reachable by ANY interleaving of Annotation(), from_records,
+   a[s,t]=l, a[s]=l, del a[s,t], del a[s], update, rename_labels(copy=False), uri assignment and
+   reads (reads refresh caches), over any number of objects *)
+Theorem C02_invariant_in_every_reachable_state : forall ops regs,
+  Forall (AInv eps) regs -> Forall (AInv eps) (regs_after eps regs ops).
+Proof. exact (history_inv eps). Qed.
+Theorem C02_invariant_from_scratch : forall ops r, AInv eps (getr (regs_after eps [] ops) r).
+Proof. exact (reachable_inv eps). Qed.
+
+(* one write at a time *)
+Theorem C02_new : forall u md, AInv eps (a_empty u md).
+Proof. exact (AInv_empty eps). Qed.
+Theorem C02_from_records : forall recs u md, AInv eps (from_records eps recs u md).
+Proof. exact (AInv_from_records eps). Qed.
+Theorem C02_setitem : forall a s t l, AInv eps a -> AInv eps (setitem eps a s t l).
+Proof. exact (AInv_setitem eps). Qed.
+Theorem C02_delitem_segment : forall a s a', AInv eps a -> delitem_seg a s = Some a' -> AInv eps a'.
+Proof. exact (AInv_delitem_seg eps). Qed.
+Theorem C02_delitem_track : forall a s t a', AInv eps a -> delitem_track a s t = Some a' -> AInv eps a'.
+Proof. exact (AInv_delitem_track eps). Qed.
+Theorem C02_update : forall recs a, AInv eps a -> AInv eps (update_with eps a recs).
+Proof. exact (AInv_update_with eps). Qed.
+Theorem C02_rename_in_place : forall a mapping, AInv eps a -> AInv eps (rename_labels_inplace a mapping).
+Proof. exact (AInv_rename eps). Qed.
+Theorem C02_set_uri : forall a u, AInv eps a ->
+  AInv eps (set_uri eps a u) /\ a_uri (set_uri eps a u) = u /\ a_tracks (set_uri eps a u) = a_tracks a.
+Proof. exact (AInv_set_uri eps). Qed.
+
+(* reads of a state satisfying the invariant equal what is computed from scratch from the track map,
+   leave the track map, uri and modality unchanged, and keep the invariant *)
+Theorem C02_labels_fresh : forall a, AInv eps a ->
+  let '(a', L) := labels eps a in
+  AInv eps a' /\ no_dirty a' /\ same_core a' a /\
+  (forall lab, In lab L <-> occurs (a_tracks a) lab) /\ NoDup L.
+Proof. exact (labels_spec eps). Qed.
+Theorem C02_label_timeline_fresh : forall a lab, AInv eps a ->
+  let '(a', c) := label_timeline eps a lab in
+  AInv eps a' /\ same_core a' a /\ c_segs c = lab_tl eps (a_tracks a) lab /\ c_uri c = a_uri a.
+Proof. exact (label_timeline_spec eps). Qed.
+Theorem C02_get_timeline_fresh : forall a, AInv eps a ->
+  let '(a', c) := get_timeline eps a in
+  AInv eps a' /\ a_tracks a' = a_tracks a /\ a_uri a' = a_uri a /\ a_modality a' = a_modality a /\
+  a_labels a' = a_labels a /\ a_dirty a' = a_dirty a /\
+  c_segs c = tl_of eps (skeys (a_tracks a)) /\ c_uri c = a_uri a.
+Proof. exact (get_timeline_spec eps). Qed.
+(* the from-scratch label timeline holds exactly the segments on which the label is in use *)
+Theorem C02_label_timeline_content : forall m lab s, WF eps m ->
+  (In s (label_segments m lab) <-> occ m lab s).
+Proof. exact (label_segments_In eps). Qed.
+(* empty segments are never stored, whichever entry point supplied them *)
+Theorem C02_no_empty_segment_stored : forall a s, AInv eps a -> In s (skeys (a_tracks a)) -> nonempty eps s = true.
+Proof. exact (stored_segments_nonempty eps). Qed.
+End C02.
+
+(* finding F2 (fixed): the old bulk constructor did store empty segments *)
+Theorem C02_old_from_records_refuted :
+  exists recs s, In s (skeys (a_tracks (from_records_old recs None None))) /\ nonempty 0 s = false.
+Proof. exact from_records_old_refuted. Qed.
+
+(* non-vacuity: a write-read-write-read history; the invariant's premises are met and the reads are fresh *)
+Example C02_nonvacuous :
+  let ops := [ASet 0 (0, 4) (Some (NStr "x")) (NStr "a"); ASet 0 (2, 6) None (NStr "b");
+              ARead 0 (RLabels [NStr "a"; NStr "b"]); ADelTrack 0 (0, 4) (NStr "x") false;
+              ARead 0 (RLabels [NStr "b"]); ASet 0 (2, 6) None (NStr "c");
+              ARead 0 (RLabelTimeline (NStr "b") [] None); ARead 0 (RLabelTimeline (NStr "c") [(2, 6)] None)] in
+  run 0 [] ops = true.
+Proof. vm_compute. reflexivity. Qed.
+
+Print Assumptions C02_invariant_in_every_reachable_state.
+Print Assumptions C02_invariant_from_scratch.
+Print Assumptions C02_new.
+Print Assumptions C02_from_records.
+Print Assumptions C02_setitem.
+Print Assumptions C02_delitem_segment.
+Print Assumptions C02_delitem_track.
+Print Assumptions C02_update.
+Print Assumptions C02_rename_in_place.
+Print Assumptions C02_set_uri.
+Print Assumptions C02_labels_fresh.
+Print Assumptions C02_label_timeline_fresh.
+Print Assumptions C02_get_timeline_fresh.
+Print Assumptions C02_label_timeline_content.
+Print Assumptions C02_no_empty_segment_stored.
+Print Assumptions C02_old_from_records_refuted.
